@@ -215,6 +215,29 @@ class Sec:
                     continue
                 fam = b.owner
                 back = fg.backward(fg.operand_nodes(bk, t["o"]), node_ok=lambda n: n[0] == "F" or n[0] == bk, local=True)
+                # a condition computed by a searching adaptor (`(0..n).all(|k| open_commitment(&commitments[k][0], ..))`): the
+                # message data the predicate looks at are its captured variables
+                locs0 = {n[1] for n in back if n[0] == bk}
+                extra = []
+                for cbi, ct in b.calls():
+                    if ct["d"]["l"] not in locs0:
+                        continue
+                    cn0 = callee_names(ct)
+                    if not cn0 or cn0[-1].rsplit("::", 1)[-1] not in ("any", "all", "find", "position", "find_map"):
+                        continue
+                    for a in ct["args"]:
+                        if a["k"] == "const" or "{closure:" not in a["p"]["ty"] or a["p"]["pr"]:
+                            continue
+                        for blk2 in b.blocks:
+                            for st2 in blk2["s"]:
+                                if st2["k"] == "assign" and st2["p"]["l"] == a["p"]["l"] and not st2["p"]["pr"] and st2["r"]["k"] == "agg" and st2["r"].get("def"):
+                                    for o2 in st2["r"]["ops"]:
+                                        if o2["k"] != "const":
+                                            extra += fg.operand_nodes(bk, o2)
+                if extra:
+                    more = fg.backward(extra, node_ok=lambda n: n[0] == "F" or n[0] == bk, local=True)
+                    for n_, e_ in more.items():
+                        back.setdefault(n_, e_)
                 comp_nodes = [n for n in back if n in all_comp]
                 # control ingredients: switches this block's condition defs are control dependent on,
                 # limited to the innermost loop body / straight-line region of the check
